@@ -16,7 +16,7 @@ META = {
                   'error kinds, pool states, timer fires, late responses, page fetches): each registered callback/errback pair runs at most '
                   'once per page fetch, never both, result() reports the delivered value, and once all requests are answered (or the '
                   'timeout handler ran) the outcome has been delivered exactly once. C14_without_guard_refuted: the same model without the '
-                  'first-wins guard violates it (3 witnesses, replayed on the real class every run).',
+                  'first-wins guard violates it (2 witnesses, replayed on the real class every run); C14_lock_protocol: the lock-region protocol of _set_final_result vs add_callback runs a callback exactly once under every thread interleaving.',
     'level_note': 'Model tied by correspondence, not by translation: real ResponseFuture vs model after every step of generated and '
                   'exhaustively enumerated histories. One op = one call into the class; finer interleavings of two threads inside '
                   '_set_final_* rest on the _callback_lock audit. Not modelled: set_keyspace/schema-change/unprepared responses '
@@ -25,6 +25,7 @@ META = {
 }
 
 QUICK_KINDS = [('rows', False, None), ('retry', 1, 'ReadTimeout'), ('retry', 2, 'Unavailable')]
+USE_KINDS = [('setks', None, None), ('rows', False, None)]
 FULL_KINDS = [('rows', False, None), ('rows', True, None), ('retry', 0, 'WriteTimeout'), ('retry', 1, 'ReadTimeout'),
               ('retry', 2, 'Unavailable')]
 
@@ -104,10 +105,10 @@ def histories(ctx):
         yield item
     # exhaustive small scope: all orderings of responses / timer fires / executor runs with up to 3 attempts in flight
     if ctx.tier == 'quick':
-        scopes = [(QUICK_KINDS, [100, 100], 12, False, 4000)]
+        scopes = [(QUICK_KINDS, [100, 100], 12, False, 4000), (USE_KINDS, [], 9, False, 4000)]
     else:
         scopes = [(FULL_KINDS, [100, 100], 10, False, 40000), (FULL_KINDS, [100], 11, True, 60000),
-                  (QUICK_KINDS + [('junk', None, None)], [0, 0], 12, False, 30000)]
+                  (QUICK_KINDS + [('junk', None, None)], [0, 0], 12, False, 30000), (USE_KINDS, [100], 9, False, 30000)]
     capped = False
     for kinds, specs, depth, np, budget in scopes:
         cfg = {'plan': [1, 2, 3], 'timeout': 1000, 'specs': specs, 'pools': {1: 'ok', 2: 'ok', 3: 'ok'}, 'now': 0}
